@@ -214,6 +214,12 @@ def oracle(w: Any, params: Any) -> List[dict]:
             if over:
                 out.append(V("shutdown-early", f"{tag}:request-still-running",
                              f"lifespan.shutdown delivered at {t} (t0={t0}) before request(s) {over} had finished"))
+        # connections are given until the graceful timeout: a request in progress at the trigger is not cancelled earlier
+        for i in reqs:
+            if i.outcome == "cancelled" and i.t_end is not None and i.t_end < t0 + GRACE - 1e-9 and i.t_start <= t0 \
+                    and not any(r.client_reset or r.client_eof or r.lost_at is not None for r in w.conns.values()):
+                out.append(V("shutdown-early", f"{tag}:request-cancelled-before-grace",
+                             f"request {i.scope.get('path')} cancelled at {i.t_end}, trigger at {t0}, graceful_timeout {GRACE}"))
         if w.serve_result is None and ticks_left and fam == "life":
             out.append(V("shutdown-hang", tag, f"now {w.final_time}, t0={t0}: no timer armed and worker_serve has not returned"))
         if w.serve_result is not None and w.serve_done_at > t0 + GRACE + SHUT_T + 1e-9:
